@@ -240,6 +240,17 @@ func (a *accCtx) step(s *accState, viol func(sig, what string)) string {
 		if check("SetLatestBlockHeader", st.SetLatestBlockHeader(h)) {
 			set("latest_block_header", &rs.Value{Items: []*rs.Value{u64v(x), u64v(x >> 3), rootv(h.ParentRoot), rootv(h.StateRoot), rootv(h.BodyRoot)}})
 		}
+		// the caller keeps using its own structs: neither the argument nor a returned header may alias the state
+		h.Slot++
+		h.ParentRoot[0] ^= 0xff
+		h.StateRoot[31] ^= 0xff
+		h.BodyRoot[7] ^= 0xff
+		if g != nil {
+			g.Slot += 3
+			g.ParentRoot[1] ^= 0xff
+			g.StateRoot[1] ^= 0xff
+		}
+		a.b.Inc("arguments_and_results_scribbled_on_after_the_call")
 		return "SetLatestBlockHeader"
 	case 5, 6:
 		name, field := "BlockRoots", "block_roots"
@@ -465,6 +476,10 @@ func (a *accCtx) step(s *accState, viol func(sig, what string)) string {
 		if check("SetBalances", st.SetBalances(list)) {
 			set("balances", mv)
 		}
+		for k := range list {
+			list[k] ^= 0xffff // the caller's slice is its own
+		}
+		a.b.Inc("arguments_and_results_scribbled_on_after_the_call")
 		return fmt.Sprintf("SetBalances(%d)", n)
 	case 17:
 		if uint64(nVals) >= uint64(a.spec.VALIDATOR_REGISTRY_LIMIT) || len(get("balances").Items) != nVals {
@@ -587,6 +602,12 @@ func (a *accCtx) step(s *accState, viol func(sig, what string)) string {
 			cmpB(name+".root", g.Root[:], get(name).Items[1].B)
 		}
 		cp := common.Checkpoint{Epoch: common.Epoch(x), Root: a.randRoot()}
+		switch rng.IntN(4) {
+		case 0:
+			cp.Epoch = g.Epoch // same epoch, other root
+		case 1:
+			cp.Root = g.Root // same root, other epoch
+		}
 		switch choice {
 		case 23:
 			err = st.SetPreviousJustifiedCheckpoint(cp)
@@ -661,6 +682,12 @@ func (a *accCtx) step(s *accState, viol func(sig, what string)) string {
 		if !check("SyncCommittee.View", err) {
 			return ""
 		}
+		defer func() { // after the setter ran: the caller's struct is its own
+			for k := range scm.Pubkeys {
+				scm.Pubkeys[k][k%48] ^= 0xff
+			}
+			scm.AggregatePubkey[1] ^= 0xff
+		}()
 		switch rng.IntN(3) {
 		case 0:
 			if check("SetCurrentSyncCommittee", ss.SetCurrentSyncCommittee(sv)) {
@@ -743,21 +770,29 @@ func (a *accCtx) step(s *accState, viol func(sig, what string)) string {
 			if err = h.Deserialize(dr()); err == nil {
 				err = t.SetLatestExecutionPayloadHeader(&h)
 			}
+			scribbleExecHeader(&h.ParentHash, &h.StateRoot, &h.ReceiptsRoot, &h.PrevRandao, &h.BlockHash, &h.TransactionsRoot, &h.LogsBloom, h.ExtraData)
+			h.BlockNumber, h.GasLimit, h.GasUsed, h.Timestamp = h.BlockNumber+1, h.GasLimit+1, h.GasUsed+1, h.Timestamp+1
 		case *capella.BeaconStateView:
 			var h capella.ExecutionPayloadHeader
 			if err = h.Deserialize(dr()); err == nil {
 				err = t.SetLatestExecutionPayloadHeader(&h)
 			}
+			scribbleExecHeader(&h.ParentHash, &h.StateRoot, &h.ReceiptsRoot, &h.PrevRandao, &h.BlockHash, &h.TransactionsRoot, &h.LogsBloom, h.ExtraData)
+			h.BlockNumber, h.GasLimit, h.GasUsed, h.Timestamp = h.BlockNumber+1, h.GasLimit+1, h.GasUsed+1, h.Timestamp+1
 		case *deneb.BeaconStateView:
 			var h deneb.ExecutionPayloadHeader
 			if err = h.Deserialize(dr()); err == nil {
 				err = t.SetLatestExecutionPayloadHeader(&h)
 			}
+			scribbleExecHeader(&h.ParentHash, &h.StateRoot, &h.ReceiptsRoot, &h.PrevRandao, &h.BlockHash, &h.TransactionsRoot, &h.LogsBloom, h.ExtraData)
+			h.BlockNumber, h.GasLimit, h.GasUsed, h.Timestamp = h.BlockNumber+1, h.GasLimit+1, h.GasUsed+1, h.Timestamp+1
 		case *electra.BeaconStateView:
 			var h deneb.ExecutionPayloadHeader
 			if err = h.Deserialize(dr()); err == nil {
 				err = t.SetLatestExecutionPayloadHeader(&h)
 			}
+			scribbleExecHeader(&h.ParentHash, &h.StateRoot, &h.ReceiptsRoot, &h.PrevRandao, &h.BlockHash, &h.TransactionsRoot, &h.LogsBloom, h.ExtraData)
+			h.BlockNumber, h.GasLimit, h.GasUsed, h.Timestamp = h.BlockNumber+1, h.GasLimit+1, h.GasUsed+1, h.Timestamp+1
 		default:
 			return ""
 		}
@@ -1065,3 +1100,17 @@ func finishRegistryScan(m *fw.Merged) {
 }
 
 var _ = context.Background
+
+// scribbleExecHeader overwrites the caller's header after it was handed to a setter: the state must not alias it.
+func scribbleExecHeader(parentHash *common.Hash32, stateRoot, receiptsRoot, prevRandao *common.Bytes32, blockHash *common.Hash32, txRoot *common.Root, bloom *common.LogsBloom, extra []byte) {
+	parentHash[0] ^= 0xff
+	stateRoot[1] ^= 0xff
+	receiptsRoot[2] ^= 0xff
+	prevRandao[3] ^= 0xff
+	blockHash[4] ^= 0xff
+	txRoot[5] ^= 0xff
+	bloom[6] ^= 0xff
+	for i := range extra {
+		extra[i] ^= 0xff
+	}
+}
